@@ -469,6 +469,10 @@ class GenCfg:
         self.fk_args = True
         self.p_surplus = 0.1
         self.text_alphabet = None
+        self.p_empty_comp = 0.1
+        self.var_pool = VAR_POOL
+        self.comp_pool = COMP_POOL
+        self.key_pool = KEY_POOL
         self.__dict__.update(kw)
 
 
@@ -477,7 +481,7 @@ def gen_segs(rng, cfg, depth=0, allow_fk=True, fk_targets=None, vars_pool=None, 
     it looks for tags, so a reference inside a tag body has no documented reading)."""
     segs = []
     n = rng.randint(1, nmax or cfg.max_segs)
-    vars_pool = vars_pool or VAR_POOL
+    vars_pool = vars_pool or cfg.var_pool
     for _ in range(n):
         r = rng.random()
         if r < 0.45 or (segs and segs[-1]["s"] != "text" and r < 0.55):
@@ -488,8 +492,8 @@ def gen_segs(rng, cfg, depth=0, allow_fk=True, fk_targets=None, vars_pool=None, 
             seg = {"s": "var", "name": pick(rng, vars_pool), "fmt": None}
             segs.append(seg)
         elif r < 0.45 + cfg.p_var * 0.5 + cfg.p_comp * 0.4 and depth < cfg.comp_depth:
-            segs.append({"s": "comp", "name": pick(rng, COMP_POOL),
-                         "inner": gen_segs(rng, cfg, depth + 1, False, None, vars_pool, True, nmax=3) if rng.random() < 0.9 else []})
+            segs.append({"s": "comp", "name": pick(rng, cfg.comp_pool),
+                         "inner": gen_segs(rng, cfg, depth + 1, False, None, vars_pool, True, nmax=3) if rng.random() >= cfg.p_empty_comp else []})
         elif allow_fk and fk_targets and not in_comp and rng.random() < cfg.p_fk * 2:
             segs.append(pick(rng, fk_targets)(rng))
         else:
@@ -564,7 +568,7 @@ def gen_range(rng, cfg, ty="random", seg_gen=None):
         ty = pick(rng, [None, None, "i32", "u8", "i8", "u32", "i64", "u64", "i16", "u16", "f32", "f64"])
     rty = ty or "i32"
     branches = []
-    seg_gen = seg_gen or (lambda: gen_segs(rng, cfg, allow_fk=False, vars_pool=["count", "count"] + VAR_POOL[:4], nmax=3))
+    seg_gen = seg_gen or (lambda: gen_segs(rng, cfg, allow_fk=False, vars_pool=["count", "count"] + cfg.var_pool[:4], nmax=3))
     for _ in range(rng.randint(1, 4)):
         specs = gen_float_specs(rng, rty) if rty.startswith("f") else gen_int_specs(rng, rty)
         branches.append({"specs": specs, "segs": seg_gen()})
@@ -575,7 +579,7 @@ def gen_range(rng, cfg, ty="random", seg_gen=None):
 def gen_plural(rng, cfg, seg_gen=None):
     rule = "ordinal" if rng.random() < 0.3 else "cardinal"
     forms = {}
-    seg_gen = seg_gen or (lambda: gen_segs(rng, cfg, allow_fk=False, vars_pool=["count", "count"] + VAR_POOL[:4], nmax=3))
+    seg_gen = seg_gen or (lambda: gen_segs(rng, cfg, allow_fk=False, vars_pool=["count", "count"] + cfg.var_pool[:4], nmax=3))
     for f in FORMS[:-1]:
         if rng.random() < 0.4:
             forms[f] = seg_gen()
